@@ -163,6 +163,19 @@ def ch1_arm_purity(ctx, rep, arms=("BlockOnFull", "DropOldest", "DropLatest")):
             nsend = sum(1 for n in names if n in CB_SEND_BLOCKING)
             others = [n for n in names if n not in CB_SEND_BLOCKING and n != LEN]
             good = nsend == 1 and not others and (CB + "Sender::send") in names
+            if not good:
+                # `try_send` as a fast path: Ok => done; Full(item) => the blocking send of that
+                # very item; Disconnected => error.  Nothing is dequeued or discarded.
+                rest = [e for e in ops if e.ck != LEN]
+                if rest and rest[0].ck in CB_TRYSEND and all(e.ck in CB_TRYSEND or e.ck == CB + "Sender::send" for e in rest):
+                    t0 = rest[0]
+                    kind = [v for (k_, v) in p.decisions if k_ == ("discr", ("vfield", t0.result, "Err", 0))]
+                    res0 = (_outcome(p, t0) or "?").lstrip("*")
+                    if len(rest) == 1:
+                        good = res0 == "Ok" or (res0 == "Err" and kind and kind[-1].lstrip("*") == "Disconnected")
+                    elif len(rest) == 2 and rest[1].ck == CB + "Sender::send":
+                        bounced = ("vfield", ("vfield", t0.result, "Err", 0), "Full", 0)
+                        good = res0 == "Err" and bool(kind) and kind[-1].lstrip("*") == "Full" and len(rest[1].args) > 1 and strip_wrap(rest[1].args[1]) == bounced
             rep.check(good, R, "blocking-arm-only-blocking-send:" + short(b.path), ctx.where(b, ops[0].bb) if ops else ctx.where(b),
                       "BlockOnFull path [%s]: one blocking send, no discarding operation" % p.describe(),
                       "BlockOnFull path [%s] performs %s" % (p.describe(), [n.split("::")[-1] for n in names]))
